@@ -227,6 +227,37 @@ def markSnap (kv : KV) (s : Nat) : Res :=
       | some tx => reload kv sn tx
     | _ => .ok kv   -- the kernel calls reloadConsensusState for single-transaction snapshots only
 
+/-! ## bulk workload (harness `fill`): k one-output deposits, each locked, written and finalized
+    in a single-transaction snapshot of the head round of its chain — a macro over the calls
+    above, so that histories longer than the startup walk's page size stay affordable -/
+
+def fillOne (kv : KV) (t s dep ts o c : Nat) : KV × Nat :=
+  let tx : Tx := { id := t, kind := 0, ref0 := 0, outs := 1, key := dep, inputs := [] }
+  match lockInputs kv tx with
+  | .ok k1 =>
+    match writeTx k1 tx with
+    | .ok k2 =>
+      match k2.rounds.lookup (.head c) with
+      | none => (k2, 2)
+      | some h =>
+        match writeSnapshot k2 { id := s, node := c, round := h.number, ts := ts, txs := [t] } o with
+        | .ok k3 => (k3, 0)
+        | .reject => (k2, 1)
+        | .panic => (k2, 2)
+    | .reject => (k1, 1)
+    | .panic => (k1, 2)
+  | .reject => (kv, 1)
+  | .panic => (kv, 2)
+
+/-- status 0 = all committed, 1 = a call returned an error, 2 = a call panicked; the state is the
+    one after the last committed call -/
+def fill (kv : KV) (t0 s0 d0 ts0 o0 : Nat) (chains : List Nat) : Nat → Nat → KV × Nat
+  | 0, _ => (kv, 0)
+  | k + 1, j =>
+    match fillOne kv (t0 + j) (s0 + j) (d0 + j) (ts0 + j) (o0 + j) (chains.getD (j % chains.length) 0) with
+    | (k1, 0) => fill k1 t0 s0 d0 ts0 o0 chains k (j + 1)
+    | r => r
+
 /-! ## restart: the modelled fragment of `kernel.SetupNode` -/
 
 /-- one step of the repair walk / of the final `LastSnapshot` test: snapshot at a topology entry -/
